@@ -29,6 +29,7 @@ CASES = [
     (r'ef\.scan', r'.*', ['ef_dict', 'ef_seq']),
     (r'ef\.(guards|dict).*', r'.*', ['ef_dict']),
     (r'vfilter\..*', r'.*', ['vfilter']),
+    (r'(shard_edge|k\.setup_graphs|k\.sig_high_bits)', r'.*', ['shard_edge']),
     (r'lenders\.take', r'.*', ['lenders_take']),
     (r'lenders\..*', r'.*', ['lenders']),
     (r'rank9', r'.*', ['rank9']),
@@ -66,9 +67,9 @@ def build(repo=None):
     return os.path.join(WTARGET, 'debug', 'sux-witness')
 
 
-def _run(binpath, args, timeout):
+def _run(binpath, args, timeout, env=None):
     try:
-        r = subprocess.run([binpath] + args, stdout=subprocess.PIPE, stderr=subprocess.PIPE, text=True, timeout=timeout)
+        r = subprocess.run([binpath] + args, stdout=subprocess.PIPE, stderr=subprocess.PIPE, text=True, timeout=timeout, env=env)
         return r.returncode, r.stdout, r.stderr
     except subprocess.TimeoutExpired as e:
         out = e.stdout.decode(errors='replace') if isinstance(e.stdout, bytes) else (e.stdout or '')
@@ -127,6 +128,9 @@ PROP_TWINS = {
     'C03': ['ef_big'],
     'C04': ['ef_dict', 'ef_big'],
     'C08': ['vfilter'],
+    'C05': ['bfv_misc'],
+    'C10': ['bfv_misc', 'bfv_apply'],
+    'C14': ['bfv_misc', 'bfv_apply'],
 }
 
 
@@ -154,12 +158,25 @@ def sweep(pid, unit_names, seed, budget=6000, per_case_timeout=900):
     binpath = build()
     for c in cases:
         t = time.time()
-        rc, out, err = _run(binpath, ['search', c, str(seed), str(budget)], per_case_timeout)
+        env = dict(os.environ)
+        env['WITNESS_MAX_FAILS'] = '12'   # collect several failing inputs: one with a distinct reason per report
+        rc, out, err = _run(binpath, ['search', c, str(seed), str(budget)], per_case_timeout, env=env)
         m = re.search(r'DONE trials=(\d+) fails=(\d+)', out)
-        w = _parse(rc, out, err)
         runs.append({'case': c, 'trials': int(m.group(1)) if m else None, 'seconds': round(time.time() - t, 1),
                      'timed_out': rc == -99})
-        if w:
-            w['cmd'] = 'sux-witness one %s %s' % (w['case'], w['input'])
-            fails.append(w)
+        seen = set()
+        for ln in out.split('\n'):
+            mm = re.match(r'FAIL (\S+) (.*?) :: (.*)$', ln)
+            if mm:
+                key = re.sub(r'\d+', '#', mm.group(3))[:80]
+                if key in seen:
+                    continue
+                seen.add(key)
+                fails.append({'found': True, 'case': mm.group(1), 'input': mm.group(2), 'reason': mm.group(3),
+                              'cmd': 'sux-witness one %s %s' % (mm.group(1), mm.group(2))})
+        if not seen:
+            w = _parse(rc, out, err)   # process death: the last TRY is the witness
+            if w:
+                w['cmd'] = 'sux-witness one %s %s' % (w['case'], w['input'])
+                fails.append(w)
     return runs, fails
